@@ -35,3 +35,22 @@ def run(ctx):
     RT.check_effect_confinement(ctx, 'R2.5')
     RT.check_group_tokens(ctx, 'R2.6')
     RK.check_parse_pipeline(ctx, 'R2.7')
+    # the two primitives the round trip rests on, validated by interpretation: group_tokens keeps the leaf sequence and the cached
+    # text, str()/flatten() of a node are the concatenation of its leaves
+    # bytes input: the text whose round trip is claimed is the documented decoding of the bytes (given codec, else UTF-8, else Latin-1)
+    from . import c19
+    from .. import rules_lexer as RL
+    ctx.rule('R2.8', 'bytes are decoded once, whole, with the given codec / UTF-8 / Latin-1 fallback; the text is scanned in one piece', floor=5)
+    before = len(ctx.obs)
+    for r_ in ('R19.3', 'R19.4'):
+        ctx.rule(r_, '', floor=0)
+    c19.check_get_tokens(ctx)
+    for o_ in ctx.obs[before:]:
+        o_.rule = 'R2.8'
+    for r_ in ('R19.3', 'R19.4'):
+        ctx.rules.pop(r_, None)
+        ctx.floors.pop(r_, None)
+    RL.check_whole_text(ctx, 'R2.8')
+    from .. import rules_base as RB
+    ctx.rule('R2.B', 'base model: group_tokens keeps the leaf sequence, parent links and cached text; str()/flatten() read the leaves in order', floor=2)
+    RB.check_base_model(ctx, 'R2.B', parts=('group_tokens', 'tree'))
